@@ -31,13 +31,15 @@ def ints_for(w):
 
 
 def exprs(w, depth, small=False):
-  """All expressions of width w and nesting <= depth: list of (expr, shape)."""
+  """All expressions of width w and nesting <= depth: list of (expr, shape). small: False = every sub-expression of the level below,
+  True = about 14 evenly spaced representatives of it (quick tier), an int k = about k representatives (thorough tier: the full
+  depth-2 product is 10^7 statements)."""
   out = list(leaves(w))
   if depth == 0: return out
   sub = exprs(w, depth - 1, small)
-  if small and depth >= 2: sub = sub[::max(1, len(sub) // 14)]
+  if small and depth >= 2: sub = sub[::max(1, len(sub) // (14 if small is True else small))]
   res = list(out)
-  ar = ["+", "-", "&", "|", "^"] + ([] if small and depth >= 2 else ["*"])
+  ar = ["+", "-", "&", "|", "^"] + ([] if small is True and depth >= 2 else ["*"])
   for op in ar:
     for (a, sa), (b, sb) in itertools.product(sub, sub):
       res.append((("bin", op, a, b), f"({sa}{op}{sb})"))
@@ -59,7 +61,7 @@ def exprs(w, depth, small=False):
   if w == 1:
     for w2 in (2, 4, 8):
       s2 = exprs(w2, depth - 1, small)
-      if small: s2 = s2[::max(1, len(s2) // 10)]
+      if small: s2 = s2[::max(1, len(s2) // (10 if small is True else small))]
       for op in ("==", "!=", "<", "<=", ">", ">="):
         for (a, sa), (b, sb) in itertools.product(s2[:12], s2[:12]):
           res.append((("bin", op, a, b), f"({sa}{op}{sb})"))
@@ -70,7 +72,7 @@ def exprs(w, depth, small=False):
         for (a, sa) in s2[:12]: res.append((("call", fn, a), f"{fn}({sa})"))
   for w2 in W:
     s2 = exprs(w2, depth - 1, small)
-    if small: s2 = s2[::max(1, len(s2) // 8)]
+    if small: s2 = s2[::max(1, len(s2) // (8 if small is True else small))]
     if w2 < w:
       for (a, sa) in s2[:12]:
         res.append((("call", "zext", a, ("n", w)), f"zext({sa},{w})"))
@@ -91,7 +93,7 @@ def statements(tier):
   out = []
   depth = 2
   for w in W:
-    es = exprs(w, 1) + [e for e in exprs(w, 2, small=(tier == "quick")) if True]
+    es = exprs(w, 1) + exprs(w, 2, small=(True if tier == "quick" else 80))
     seen = set()
     for e, sh in es:
       if sh in seen: continue
